@@ -15,7 +15,7 @@ func MapKeys[M ~map[K]V, K cmp.Ordered, V any](site string, m M) []K {
 	}
 	slices.Sort(keys)
 	s := active.Load()
-	if s == nil || s.Opts.MapSalt == 0 || len(keys) < 2 {
+	if s == nil || s.Opts.Mode == ModeFree || s.Opts.MapSalt == 0 || len(keys) < 2 {
 		return keys
 	}
 	s.mu.Lock()
